@@ -22,6 +22,7 @@ try:
     # (0) demos pass without any patch
     for d, m in metas.items():
         dst = os.path.join(wt, os.path.dirname(m["demo_path"]), "demo_" + os.path.basename(d).replace("-", "_").lower() + ".rs")
+        os.makedirs(os.path.dirname(dst), exist_ok=True)
         shutil.copy(os.path.join(d, "demo.rs"), dst)
         name = os.path.basename(dst)[:-3]
         feat = "--features wat " if "--features wat" in m.get("demo_cmd", "") else ""
@@ -43,6 +44,7 @@ try:
         if rc != 0:
             r["existing_tests_tail"] = out
         dst = os.path.join(wt, os.path.dirname(m["demo_path"]), "demo_" + os.path.basename(d).replace("-", "_").lower() + ".rs")
+        os.makedirs(os.path.dirname(dst), exist_ok=True)
         shutil.copy(os.path.join(d, "demo.rs"), dst)
         name = os.path.basename(dst)[:-3]
         rc, out = run("cargo test -p %s %s--offline -j 8 --test %s" % (pkgs[0], feat, name))
